@@ -50,7 +50,8 @@ def main(run):
                 "quick / 1e6 thorough) through the shipped WelfordTracker / ExponentialSmoothingTracker vs exact integer-scaled sums "
                 "(mean, population variance) and a 60-digit evaluation of the smoothing recurrence; bounds: mean error <= "
                 "(2n+8)*eps*max|v|, smoothed error <= 8*eps*max|v|/alpha, relative variance error <= 4n*eps*kappa + 16eps with "
-                "kappa = sqrt(1+mean^2/var) (zero-variance inputs: absolute 4n*eps*mean^2), everything finite; explainer runs "
+                "kappa = sqrt(1+mean^2/var) (zero-variance inputs: absolute 4n*eps*mean^2), everything finite; SlidingWindowTracker mean / "
+                "variance under the same bounds relative to the CURRENT window (falling magnitudes, huge outliers that left the window); explainer runs "
                 "(IncrementalPFI / IncrementalSage, static and dynamic) driven by such loss sequences executed twice from the same "
                 "generator state, in floats and in exact rationals, importance values within 4*eps*max|loss|*(d+2)*max(n,2/alpha); "
                 "evaluations = bound comparisons at checkpoints; non-trivial = distinct (pattern, magnitude, offset, length, alpha) "
@@ -136,6 +137,43 @@ def main(run):
             run.nontriv((pattern, mag, offset, n, round(alpha, 6)))
         if len(run.samples) < 2:
             run.sample({**replay, "first_values": vals[:4], "float_mean": w.mean, "float_var": w.var, "float_smoothed": e.get()})
+    # ---------------- SlidingWindowTracker: close to the exact statistics of the window, whatever passed through before
+    try:
+        from ixai.utils.tracker import SlidingWindowTracker
+        for k in (3, 8, 50):
+            for pattern in ("falling-magnitudes", "outliers", "offset"):
+                n = 40 * k if not thorough else 400 * k
+                if pattern == "falling-magnitudes":
+                    vals = [rnd.uniform(0.5, 2.0) * 10.0 ** (8 - 16 * i / n) for i in range(n)]
+                elif pattern == "outliers":
+                    vals = [rnd.choice([1e16, -1e14]) if rnd.random() < 0.05 else rnd.uniform(0.5, 2.0) for i in range(n)]
+                else:
+                    vals = [1e9 + rnd.random() for _ in range(n)]
+                tr = SlidingWindowTracker(k)
+                for i, v in enumerate(vals):
+                    tr.update(v)
+                    if i % 3 and i != n - 1:
+                        continue
+                    win = [Fraction(x) for x in vals[max(0, i + 1 - k):i + 1]]
+                    m = len(win)
+                    mean_x = sum(win) / m
+                    var_x = sum((x - mean_x) ** 2 for x in win) / m
+                    mxw = max(abs(float(x)) for x in win)
+                    fm, fv = float(tr.mean), float(tr.var)
+                    run.ok(2, kind="sliding-window-bounds")
+                    b_m = (2 * m + 8) * EPS * mxw
+                    bad = not (math.isfinite(fm) and math.isfinite(fv)) or abs(Fraction(fm) - mean_x) > b_m
+                    if var_x > 0:
+                        kappa = math.sqrt(1 + float(mean_x * mean_x / var_x))
+                        bad = bad or abs(Fraction(fv) - var_x) / var_x > 4 * m * EPS * kappa + 16 * EPS
+                    if bad:
+                        run.violation("sliding-window-error", f"SlidingWindowTracker(k={k}) {pattern} after {i + 1} updates: mean {fm!r} (exact "
+                                                              f"{float(mean_x)!r}, bound {b_m:.3g}), var {fv!r} (exact {float(var_x)!r})",
+                                      {"k": k, "pattern": pattern, "n": i + 1, "seed": run.shard_seed})
+                        break
+                run.nontriv(("sw", k, pattern, sh))
+    except ImportError:
+        pass
     # ---------------- explainer runs driven by ill-conditioned loss sequences
     from ixai.explainer import IncrementalPFI, IncrementalSage
     from ixai.storage import GeometricReservoirStorage
